@@ -3,6 +3,7 @@
 -/
 import Lumina.Proofs.C13
 import Lumina.Model.ShareProof
+import Lumina.Proofs.DecodersMain
 
 namespace Lumina.Proofs.C13
 open Lumina.Util Lumina.Model.Merkle Lumina.Proofs.Merkle
@@ -36,7 +37,7 @@ theorem sharesNeeded_ok : ∀ (ps : List NsProof) (acc n : Nat), sharesNeeded ac
     · simp [h1] at h
     · by_cases h2 : p.end_ ≤ p.start
       · simp [h1, h2] at h
-      · by_cases h3 : Lumina.Model.ShareProof.u32Max < acc + (p.end_ - p.start)
+      · by_cases h3 : Lumina.Model.ShareProof.u64Max < acc + (p.end_ - p.start)
         · simp [h1, h2, h3] at h
         · simp only [h1, h2, h3, Bool.false_eq_true, ↓reduceIte] at h
           obtain ⟨a, b⟩ := ih _ _ h
@@ -45,7 +46,7 @@ theorem sharesNeeded_ok : ∀ (ps : List NsProof) (acc n : Nat), sharesNeeded ac
           simp only [nobsOf, Bool.not_eq_true', decide_eq_true_eq]
           exact ⟨by simpa using h1, decide_eq_true (by omega)⟩
 
-/-- the first loop never "fails with success" -/
+/-- the first loop never "fails with success", and (since /repo 292f2b8) never aborts -/
 theorem sharesNeeded_error_ne_ok : ∀ (ps : List NsProof) (acc : Nat), sharesNeeded acc ps ≠ .error .ok := by
   intro ps
   induction ps with
@@ -60,6 +61,58 @@ theorem sharesNeeded_error_ne_ok : ∀ (ps : List NsProof) (acc : Nat), sharesNe
       · split
         · simp
         · exact ih _
+
+theorem sharesNeeded_error_ne_panic : ∀ (ps : List NsProof) (acc : Nat), sharesNeeded acc ps ≠ .error .panic := by
+  intro ps
+  induction ps with
+  | nil => intro acc; simp [sharesNeeded]
+  | cons p ps ih =>
+    intro acc
+    simp only [sharesNeeded]
+    split
+    · simp
+    · split
+      · simp
+      · split
+        · simp
+        · exact ih _
+
+/-- the second loop never aborts when the shares are exactly as many as the ranges need, every row root is a
+    90-byte namespaced hash (Rust type `NamespacedHash`) and the range bounds are `u32`s (Rust type) -/
+theorem rangeLoop_ne_panic (h : Lumina.Model.Nmt.HashFn) (ns : Bytes) :
+    ∀ (nps : List NsProof) (rs : List Bytes) (data : List Bytes),
+      ((nps.map nobsOf).map (fun p => p.end_ - p.start)).sum ≤ data.length →
+      (∀ r ∈ rs, r.length = 90) → (∀ p ∈ nps, Lumina.Proofs.Decoders.U32 p) →
+      rangeLoop h ns data nps rs ≠ .panic := by
+  intro nps
+  induction nps with
+  | nil => intro rs data _ _ _; simp [rangeLoop]
+  | cons np nps ih =>
+    intro rs data hsum hr hu
+    cases rs with
+    | nil => simp [rangeLoop]
+    | cons r rs =>
+      simp only [List.map_cons, List.sum_cons, nobsOf] at hsum
+      simp only [rangeLoop]
+      have hlen : ¬ data.length < np.end_ - np.start := by omega
+      simp only [hlen, ↓reduceIte]
+      have hr90 : r.length = 90 := hr r (by simp)
+      have hof : ∃ root, NsHash.ofBytes? r = some root := by
+        unfold NsHash.ofBytes?
+        simp [hr90, Lumina.Model.Nmt.NAMESPACED_HASH_SIZE, Lumina.Model.Nmt.NS_SIZE, Lumina.Model.Nmt.HASH_LEN]
+      obtain ⟨root, hroot⟩ := hof
+      simp only [hroot]
+      have hnp := Lumina.Proofs.Decoders.safeVerifyRange_ne_panic h np (hu np (by simp)) root
+        (data.take (np.end_ - np.start)) ns
+      cases hv : Lumina.Model.Decoders.safeVerifyRange h np root (data.take (np.end_ - np.start)) ns with
+      | error e =>
+        cases e <;> first | (exact absurd hv hnp) | simp
+      | ok u =>
+        simp only
+        apply ih rs (data.drop (np.end_ - np.start))
+        · simp only [List.length_drop, nobsOf] at hsum ⊢; omega
+        · exact fun r' hr' => hr r' (by simp [hr'])
+        · exact fun p hp => hu p (by simp [hp])
 
 /-- composite binding hypothesis for share groups (see `Props/C13.lean`): `all` are the NMT roots of
     the axes of the square `sq`, and a range proof accepted against such a root for a range inside
